@@ -179,7 +179,10 @@ func receiveFromTransport(ctx context.Context, c *channel, done chan<- struct{})
 		close(c.inSesChan)
 	}()
 
-	for c.Established() {
+	// The transport state is not checked here: a transport that was closed by the remote party
+	// may still hold envelopes to be received (like the finished session), and Receive itself
+	// fails when there is nothing else to receive.
+	for c.State() == SessionStateEstablished {
 		env, err := c.transport.Receive(ctx)
 		if err != nil {
 			if ctx.Err() == nil {
